@@ -141,7 +141,7 @@ func writeObject(w io.Writer, value any) error {
 	case reflect.Ptr:
 		return writeObject(w, reflect.ValueOf(value).Elem())
 	default:
-		_, err := io.WriteString(w, fmt.Sprint(value))
+		_, err := io.WriteString(w, values.Sprint(value))
 		return err
 	}
 }
